@@ -2,7 +2,7 @@
 EXTENDS Http1Down, Json
 MCChunks == << 3, 2, 4 >>
 GenChunks == << 2, 3 >>
-NoHist == << written, chan, pend, tx, win, mode, gsTaken, wAtShut, cancels >>
+NoHist == << written, chan, pend, tx, win, mode, gsTaken, wAtShut, cancels, refusals >>
 \* one line per behaviour that reached the close, for replay on the real codec
 Emit == mode = "closed" => PrintT(<< "H1D", ToJson([chunks |-> Chunks, hist |-> hist, tx |-> Len(tx), shut |-> wAtShut]) >>)
 =============================================================================
